@@ -147,7 +147,15 @@ impl Expr {
                         "lwrd" => (value as u64 & 0xffff) as i64,
                         "hwrd" => ((value as u64 & 0xffff0000) >> 16) as i64,
                         "page" => ((value as u64 & 0x1f0000) >> 16) as i64,
-                        "exp2" => 1 << value,
+                        "exp2" => {
+                            if value < 0 || value > 62 {
+                                return Err(ExprRunError::ArithmeticError(format!(
+                                    "exp2 argument out of range (0 <= n <= 62): {}",
+                                    value
+                                )));
+                            }
+                            1 << value
+                        }
                         "log2" => {
                             let mut i = 0;
                             let mut value = value as u64;
@@ -228,8 +236,18 @@ impl Expr {
                     BinaryOperator::BitwiseAnd => Ok(left & right),
                     BinaryOperator::BitwiseOr => Ok(left | right),
                     BinaryOperator::BitwiseXor => Ok(left ^ right),
-                    BinaryOperator::ShiftLeft => Ok(left << right),
-                    BinaryOperator::ShiftRight => Ok(left >> right),
+                    BinaryOperator::ShiftLeft | BinaryOperator::ShiftRight => {
+                        if right < 0 || right > 63 {
+                            Err(ExprRunError::ArithmeticError(format!(
+                                "Shift count out of range (0 <= n <= 63): {:?}",
+                                binary.right
+                            )))
+                        } else if let BinaryOperator::ShiftLeft = binary.operator {
+                            Ok(left << right)
+                        } else {
+                            Ok(left >> right)
+                        }
+                    }
                     BinaryOperator::LessThan => Ok((left < right) as i64),
                     BinaryOperator::LessOrEqual => Ok((left <= right) as i64),
                     BinaryOperator::GreaterThan => Ok((left > right) as i64),
